@@ -113,13 +113,31 @@ def _call(i):
     except Exception:
         pass
     col = Collector()
+    cov = start_line_coverage()
     try:
         _WORK(col, i)
     except HarnessError:
         raise
     except Exception:
         raise HarnessError("worker %d crashed:\n%s" % (i, traceback.format_exc()))
+    finally:
+        if cov is not None:
+            cov.stop()
+            cov.save()
     return col.dump()
+
+
+def start_line_coverage():
+    """development aid (tools/blindspots.sh): with VERIF_COV=<dir> every worker task records which lines of the
+    library under check it executed; never set by the registered commands"""
+    covdir = os.environ.get("VERIF_COV")
+    if not covdir:
+        return None
+    import coverage
+    cov = coverage.Coverage(data_file=os.path.join(covdir, ".coverage"), data_suffix=True, branch=True,
+                            include=[os.path.join(os.environ.get("VERIF_REPO", "/repo"), "spatialpandas", "*")])
+    cov.start()
+    return cov
 
 
 def pmap(ctx, work, nchunks, timeout=3600, nproc=None):
